@@ -89,12 +89,16 @@ SEQ = {
             {"admissions_with_2_victims": 100, "growth_evictions_multi_victim": 100, "evictions_with_zero_weight_victim": 50, "recency_order_checks": 10000},
             "exact mode only (single-threaded cache; concurrent cache with sync() after every op), capacities 1..16, unit and variable weights: the set "
             "removed by each call is compared with the shortest-LRU-prefix prediction computed from the implementation's pre-state, and the "
-            "probation order with the ground-truth recency order. Non-trivial: an admission with victims or a growth eviction; distinct by fingerprint."),
+            "probation order with the ground-truth recency order. Sparse sync() placement on the concurrent cache: each batch of operations queued since the last quiescent "
+            "point and applied by one explicit sync() (no maintenance nested in between, checked on the queue lengths and the deque node identities) is judged by a batch "
+            "model: recorded reads first, then the writes in queue order, stale ops skipped, victims by accounted weight. Non-trivial: an admission with victims or a growth "
+            "eviction; distinct by fingerprint."),
     "C13": ([("admission", 10)], 50, 320000, 8000000,
             {"admission_decisions_admit": 1000, "admission_decisions_reject": 1000, "admission_decisions_with_equal_estimates": 500,
              "admissions_with_2_victims": 100},
             "exact mode only: for every insert of a new key that does not fit, admitted/rejected and the victims are predicted from the "
-            "implementation's own popularity estimates read just before the call. Non-trivial: a history with an admission decision; distinct by fingerprint."),
+            "implementation's own popularity estimates read just before the call; un-synced batches on the concurrent cache are judged by the batch model (see C12), "
+            "with the estimates taken from the table right before the sync() plus the batch's own recorded reads. Non-trivial: a history with an admission decision; distinct by fingerprint."),
     "C16": ([("iter", 10)], 50, 320000, 8000000,
             {"iterations": 5000, "iter_items": 5000},
             "sequential clause: every iteration is compared with the ground truth as a multiset (no duplicates, nothing dead, every must-live key). "
@@ -119,6 +123,9 @@ def plan_seq(pid, tier, seed, ncpu):
             js += seq_jobs(bindirs["dbg"], workdir, known, pid, p, total * s // shares, ops, seed, n)
         # long histories (200-400 ops): reach the 64-op flush points of the read / write logs without sync()
         js += seq_jobs(bindirs["dbg"], workdir, known, pid, profiles[0][0], max(200, total // 40), 400, seed, 2, prefix="long")
+        if pid in ("C12", "C13", "C03", "C04", "C10"):
+            # un-synced batches on the concurrent cache, judged by the batch model (reads first, then writes in queue order)
+            js += seq_jobs(bindirs["dbg"], workdir, known, pid, "batch", scale(tier, 80000, 2000000), 60, seed, 4, prefix="batch")
         if pid in ("C05", "C06"):
             # more expired entries pending than one maintenance batch (100 / 500) purges
             js += seq_jobs(bindirs["dbg"], workdir, known, pid, "bulk", scale(tier, 240, 6000), 1300, seed, 4, prefix="bulk")
